@@ -508,6 +508,9 @@ func (sc *specCtx) locTerm(x *core.Sexp) *Term {
 func (sc *specCtx) resolve(name string) *Term {
 	fr := sc.fr
 	g := fr.g
+	if !sc.calleeView {
+		name = mapRenamed(g.Eng.renameFor(fr.key, fr.fn), name)
+	}
 	// results
 	if strings.HasPrefix(name, "ret") {
 		if n, err := strconv.Atoi(name[3:]); err == nil {
@@ -667,3 +670,20 @@ func (sc *specCtx) resolve(name string) *Term {
 	return nil
 }
 
+// mapRenamed applies the renamed-locals map (names.go) to a $name of a contract: "x", "&x", "x@N".
+func mapRenamed(rn map[string]string, name string) string {
+	if len(rn) == 0 {
+		return name
+	}
+	pre, base, suf := "", name, ""
+	if strings.HasPrefix(base, "&") {
+		pre, base = "&", base[1:]
+	}
+	if i := strings.Index(base, "@"); i > 0 {
+		base, suf = base[:i], base[i:]
+	}
+	if nn, ok := rn[base]; ok {
+		return pre + nn + suf
+	}
+	return name
+}
